@@ -541,5 +541,6 @@ pub use crate::countedindex::{get_valid_wrap, is_tagged, past, rm_tag, CountedIn
 pub use crate::memory::verif_access as memory_access;
 pub use crate::memory::{MemToken, MemoryManager};
 pub use crate::mpmc::verif_access::mpmc_fut_queue_with;
+pub use crate::multiqueue::verif_access::QueueView;
 pub use crate::read_cursor::{ReadCursor, Reader};
 pub use crate::wait::check as wait_check;
